@@ -5,6 +5,7 @@ import (
 
 	"github.com/np-guard/netpol-analyzer/pkg/netpol/diff"
 
+	"verif/harness/formats"
 	"verif/harness/world"
 )
 
@@ -20,6 +21,8 @@ type DiffEntry struct {
 	Aligned bool             `json:"aligned"`
 	NewSrc  bool             `json:"newSrc"` // IsSrcNewOrRemoved
 	NewDst  bool             `json:"newDst"`
+	C1      string           `json:"c1"` // canonical text of the un-abstracted connections (package formats syntax)
+	C2      string           `json:"c2"`
 }
 
 type DiffObs struct {
@@ -29,6 +32,18 @@ type DiffObs struct {
 	NilDiff  bool        `json:"nilDiff"`
 	Entries  []DiffEntry `json:"entries"`
 	Errors   []ErrObs    `json:"errors"`
+}
+
+func connText(ac diff.AllowedConnectivity) string {
+	m := map[string][][2]int{}
+	for proto, prs := range ac.ProtocolsAndPorts() {
+		rs := [][2]int{}
+		for _, pr := range prs {
+			rs = append(rs, [2]int{int(pr.Start()), int(pr.End())})
+		}
+		m[string(proto)] = rs
+	}
+	return formats.ConnFromAPI(ac.AllProtocolsAndPorts(), m, nil)
 }
 
 func connOf(ac diff.AllowedConnectivity, w *world.World, c *world.Conc) (bool, map[string][]int, bool) {
@@ -89,6 +104,7 @@ func Diff(dir1, dir2 string, w *world.World, c *world.Conc, stop bool, format st
 			de.All1, de.PP1, a1 = connOf(e.Ref1Connectivity(), w, c)
 			de.All2, de.PP2, a2 = connOf(e.Ref2Connectivity(), w, c)
 			de.Aligned = a1 && a2
+			de.C1, de.C2 = connText(e.Ref1Connectivity()), connText(e.Ref2Connectivity())
 			obs.Entries = append(obs.Entries, de)
 		}
 	}
